@@ -257,6 +257,34 @@ fn main() {
                         }
                     }}
                 }
+                // an explicit --bumped-timestamp T2 is the commit time for every pattern, wherever HEAD stands (on the tag or ahead of
+                // it), alone, with the state flags, and when given to a second run that reads the first run's object from stdin
+                {
+                    for t2 in [1710511845u64, 86399] {
+                        let c2 = cal::civil(t2);
+                        let t2s = t2.to_string();
+                        let want_core = [c2.year.to_string(), c2.month.to_string(), c2.day.to_string()];
+                        let judge_out = |r: Result<Res, PanicInfo>, label: String, st: &mut Stats| {
+                            st.inc("git_calver_evaluations"); st.inc("explicit_timestamp_on_git_runs");
+                            match r {
+                                Ok(Res::Ok(out)) => { let ok = rsv::parse(&out).map(|p| p.core == want_core).unwrap_or(false); if !ok { ctx.violation("git_explicit_timestamp_ignored", label, json!({"kind":"git-calver","t":ht,"t2":t2}), format!("printed {out:?}, --bumped-timestamp {t2} is {}-{}-{} UTC", c2.year, c2.month, c2.day)); } }
+                                other => ctx.violation("calver_failed", label, json!({"kind":"git-calver","t":ht}), format!("{other:?}")),
+                            }
+                        };
+                        for extra in [vec![], vec!["--clean"], vec!["--no-dirty"], vec!["--distance", "2"], vec!["--bumped-commit-hash", "gabc1234"], vec!["--dirty"]] { for preset in ["calver-base", "calver", "calver-base-prerelease-post-dev-context"] {
+                            let mut args = vec!["version", "-C", &dir, "--schema", preset, "--output-format", "semver", "--bumped-timestamp", &t2s]; args.extend(extra.iter());
+                            // a dirty tree takes the wall clock by design (C12-I): not an explicit-timestamp case
+                            if extra == vec!["--dirty"] { continue; }
+                            judge_out(zv::run_cli(&args, None), format!("git {preset} --bumped-timestamp {t2} {} head {head:?} commit time {ht}", extra.join(" ")), &mut st);
+                        }}
+                        if let Ok(Res::Ok(doc)) = zv::run_cli(&["version", "-C", &dir, "--output-format", "zerv"], None) {
+                            judge_out(zv::run_cli(&["version", "--source", "stdin", "--schema", "calver-base", "--output-format", "semver", "--bumped-timestamp", &t2s], Some(&doc)), format!("git object on stdin, then --bumped-timestamp {t2}, head {head:?} commit time {ht}"), &mut st);
+                        }
+                        if let Ok(Res::Ok(doc)) = zv::run_cli(&["version", "-C", &dir, "--output-format", "zerv", "--bumped-timestamp", &t2s], None) {
+                            judge_out(zv::run_cli(&["version", "--source", "stdin", "--schema", "calver-base", "--output-format", "semver"], Some(&doc)), format!("--bumped-timestamp {t2} on git, object piped to a second run, head {head:?} commit time {ht}"), &mut st);
+                        }
+                    }
+                }
                 // without the bump context the date falls back to the *tagged commit's* commit time (t0), not to the time an
                 // annotated tag object was written (40 days later in these repositories)
                 if matches!(head, Head::Branch(_)) {
